@@ -123,6 +123,9 @@ func checkText(r *ev.Run, text string) {
 		r.Add("specs_with_a_handle_in_two_levels_accepted", 1)
 	}
 	r.Distinct(text)
+	if d := ownProductions(sp, res); d != "" {
+		r.Report("", d+"\n"+text, in)
+	}
 	got := res.Spec.Precedences
 	if len(got) != len(want) {
 		r.Report("", fmt.Sprintf("%d precedence levels recorded for %d directives\n%s", len(got), len(want), text), in)
@@ -248,6 +251,105 @@ func checkText(r *ev.Run, text string) {
 			}
 		}
 	}
+}
+
+// canon prints an expression with the operands of every alternation sorted (at every depth): two bracket bodies that
+// list the same alternatives in another order are the same body.
+func canon(e ebnfref.Expr) string {
+	switch v := e.(type) {
+	case *ebnfref.Alt:
+		var parts []string
+		for _, o := range v.Ops {
+			parts = append(parts, canon(o))
+		}
+		if v.TrailingEmpty {
+			parts = append(parts, "")
+		}
+		sort.Strings(parts)
+		return strings.Join(dedupe(parts), " | ")
+	case *ebnfref.Cat:
+		var parts []string
+		for _, o := range v.Ops {
+			parts = append(parts, canon(o))
+		}
+		return strings.Join(parts, " ")
+	case *ebnfref.Group:
+		return "( " + canon(v.X) + " )"
+	case *ebnfref.Opt:
+		return "[ " + canon(v.X) + " ]"
+	case *ebnfref.Star:
+		return "{ " + canon(v.X) + " }"
+	case *ebnfref.Plus:
+		return "{{ " + canon(v.X) + " }}"
+	case nil:
+		return ""
+	}
+	return ebnfref.ExprString(e)
+}
+
+func topAlternatives(rhs ebnfref.Expr) []string {
+	if rhs == nil {
+		return []string{""}
+	}
+	if a, ok := rhs.(*ebnfref.Alt); ok {
+		var out []string
+		for _, o := range a.Ops {
+			out = append(out, canon(o))
+		}
+		if a.TrailingEmpty {
+			out = append(out, "")
+		}
+		return out
+	}
+	return []string{canon(rhs)}
+}
+
+// ownProductions: "each such production is one of the grammar's own productions". When every alternative of every rule
+// handle is an alternative the rules of the specification write for that head (bracket bodies compared as sets of
+// alternatives), the directives add nothing: the grammar must have as many non-terminals and productions as the grammar
+// of the same specification without its directives (numbers, because synthesised names are numbered in order of
+// appearance and a directive may come first).
+func ownProductions(sp *ebnfref.Spec, res *impl.Result) string {
+	written := map[string]bool{}
+	var rest []ebnfref.Decl
+	handles := 0
+	for _, d := range sp.Decls {
+		if r, ok := d.(*ebnfref.Rule); ok {
+			for _, a := range topAlternatives(r.RHS) {
+				written[r.LHS+" = "+a] = true
+			}
+		}
+		if _, ok := d.(*ebnfref.Directive); !ok {
+			rest = append(rest, d)
+		}
+	}
+	for _, d := range sp.Decls {
+		if v, ok := d.(*ebnfref.Directive); ok {
+			for _, h := range v.Handles {
+				if h.Rule == nil {
+					continue
+				}
+				handles++
+				for _, a := range topAlternatives(h.Rule.RHS) {
+					if !written[h.Rule.LHS+" = "+a] {
+						return ""
+					}
+				}
+			}
+		}
+	}
+	if handles == 0 {
+		return ""
+	}
+	bare := impl.Parse("f.g", (&ebnfref.Spec{Name: sp.Name, NameSemi: sp.NameSemi, Decls: rest}).Text())
+	if !bare.OK() {
+		return ""
+	}
+	if len(bare.Prods) != len(res.Prods) || len(bare.NonTerms) != len(res.NonTerms) {
+		return fmt.Sprintf("the rule handles only repeat alternatives the rules write, yet the grammar has %d non-terminals and %d productions with the directives and %d and %d without them: a handle's production is not one of the grammar's own\nwith: %v\nwithout: %v",
+			len(res.NonTerms), len(res.Prods), len(bare.NonTerms), len(bare.Prods), res.Prods, bare.Prods)
+	}
+	return ""
 }
 
 func dedupe(xs []string) []string {
@@ -410,6 +512,90 @@ func main() {
 					for aj, a2 := range assocs {
 						a3 := assocs[(ai+aj+1)%3]
 						emit([]directive{{a1, []int{i}}, {a2, []int{j}}, {a3, []int{k}}})
+					}
+				}
+			}
+		}
+	}
+	// rule handles that repeat what a rule writes, with the alternatives inside the brackets (and at the top) in every
+	// other order: nested brackets of two and three levels, a bracket body an earlier rule used too; the directive
+	// before the rules, after them and between them
+	{
+		perms := func(xs []string) [][]string {
+			var out [][]string
+			var rec func(cur []string, left []string)
+			rec = func(cur, left []string) {
+				if len(left) == 0 {
+					out = append(out, append([]string{}, cur...))
+					return
+				}
+				for i := range left {
+					rest := append(append([]string{}, left[:i]...), left[i+1:]...)
+					rec(append(cur, left[i]), rest)
+				}
+			}
+			rec(nil, xs)
+			return out
+		}
+		alt := func(xs []string) []string {
+			var out []string
+			for _, p := range perms(xs) {
+				out = append(out, strings.Join(p, " | "))
+			}
+			return out
+		}
+		var shapes [][]string // shapes[k] = the variants of one right-hand side; variant 0 is what the rule writes
+		add := func(format string, groups ...[]string) {
+			variants := []string{""}
+			for _, g := range groups {
+				var next []string
+				for _, v := range variants {
+					for _, a := range g {
+						next = append(next, v+"\x00"+a)
+					}
+				}
+				variants = next
+			}
+			var texts []string
+			for _, v := range variants {
+				args := strings.Split(v, "\x00")[1:]
+				t := format
+				for _, a := range args {
+					t = strings.Replace(t, "%s", a, 1)
+				}
+				texts = append(texts, t)
+			}
+			shapes = append(shapes, texts)
+		}
+		add(`e ( %s ) e`, alt([]string{"a", "b"}))
+		add(`e ( %s ) e`, alt([]string{"a", "b", "TK"}))
+		add(`a { [ %s ] a }`, alt([]string{`","`, `";"`}))
+		add(`[ %s ] e`, alt([]string{"a", "b"}))
+		add(`{{ %s }} b`, alt([]string{"a", "b e"}))
+		add(`e ( %s ) e`, []string{"a | ( b | TK )", "( b | TK ) | a", "a | ( TK | b )", "( TK | b ) | a"})
+		add(`{ ( %s ) [ %s ] }`, alt([]string{"a", "b"}), alt([]string{"b", "a"}))
+		add(`a { [ ( %s ) b ] a }`, alt([]string{`"+"`, `"-"`}))
+		add(`%s`, alt([]string{"a e", "b", `"-" e`}))
+		for _, variants := range shapes {
+			for vi, v := range variants {
+				rules := fmt.Sprintf("start = e ;\ne = %s | \"x\" ;\na = \"p\" ;\nb = \"q\" ;\n", variants[0])
+				other := fmt.Sprintf("f = %s ;\n", variants[len(variants)-1])
+				for ai, as := range assocs {
+					if (vi+ai)%3 != 0 && r.Quick() {
+						continue
+					}
+					dir := fmt.Sprintf("%s < e = %s > ;\n", as, v)
+					for _, text := range []string{
+						"grammar g ;\nTK = \"t\" ;\n" + rules + dir,
+						"grammar g ;\nTK = \"t\" ;\n" + dir + rules,
+						"grammar g ;\nTK = \"t\" ;\n" + other + dir + rules + "s2 = f ;\n",
+						"grammar g ;\nTK = \"t\" ;\n" + rules + other + dir + "s2 = f ;\n",
+					} {
+						count++
+						if r.MineIdx(count) && !r.Expired() {
+							r.Add("specs_handles_repeating_rules", 1)
+							checkText(r, text)
+						}
 					}
 				}
 			}
